@@ -34,8 +34,12 @@ def run(c):
         traces = [t1, t2, t3]
     distinct = set()
     stats = {"ok": 0, "err": 0, "timeout": 0, "max_overshoot": 0}
+    allp = c.rundir / "all.ndjson"
+    with open(allp, "w") as f:
+        for t in traces:
+            f.write(open(t).read())
+    c.tlc_trace("TraceCopy", allp, timeout=1500)
     for t in traces:
-        ok, total = c.tlc_trace("TraceCopy", t, timeout=1500)
         mx = fw = 0
         for line in open(t):
             ev = json.loads(line)
